@@ -133,25 +133,25 @@ CHECKS = {
 # what the later rounds (seeded waves 4 and 5, DESIGN.md section 14) added to each exploration; appended to the claim text
 EXTRA = {
     'C01': ' Also: closed paths that revisit an earlier vertex right before closing (lengths 4..5/6). A control relation \'mirror image of the last control point of a preceding curve of the other Bezier kind\' (S / T must not be used across kinds).',
-    'C02': ' Also: one command letter repeated N times (N bracketing every power of two up to 256/1000) in the letter-dropping spellings, and relative moves whose float sum returns to the subpath start only up to rounding. The parser\'s other entry points and optional arguments (current_pos by keyword / position, tree_element, Path(d, z)) for every program of <= 4 commands.',
-    'C03': ' Also: the same ndarray refilled in place between two points() calls; polynomial-to-Bezier conversion for int / int-ndarray / poly1d / float / complex coefficients; thorough: every assignment of control points over a 9-value lattice. Optional arguments of the conversion helpers also by position.',
-    'C04': ' Also: pairs of arcs differing by -1 / -2 in one number (equal hashes), radii too small by 1e-8..1e-4, a rotation of 3.6e12+25 degrees; thorough: 245 000 arcs incl. far-away start points. Every arc also through the strict constructor (autoscale_radius=False / True, keyword / positional, rx or ry negated); dyadic exact-fit half ellipses.',
-    'C05': ' Also: every ordered pair (previous T, T) on one Path object (paths of <= 3 segments), and coherence after Path.approximate_arcs_with_cubics/quads in place. Paths with a history (measured with default or deliberately loose error / min_depth, reversed twice, parsed, strict arcs, module settings changed and restored ...); a doubling-back cubic in the pool; reference fractions from freshly built segments.',
-    'C06': ' Also: an arc whose radii differ by 3e-6 relative, shapes with very uneven control-polygon legs, a self-closing cubic. Non-default error / min_depth (relative and absolute, keyword and positional); the module switch USE_SCIPY_QUAD off; segment and path histories as in C05.',
-    'C07': ' Also: all ordered pairs of calls (s, s_tol) on one object, ilength - edit through the Path interface (incl. -1 -> -2) - ilength against a fresh Path, and s = +-inf / nan. Non-default s_tol / maxits / error / min_depth (keyword and positional); references from freshly built objects; segment and path histories as in C05.',
-    'C08': ' Also: Path.bbox against the union of segment boxes for paths of every size bracketing the powers of two up to 256/1000 (gaps, sub-paths, a long stroke), plain-Python-int control points (incl. beyond 64 bits), negative radii. Pieces (cropped / split) of every library segment; arcs constructed with autoscale_radius=False, incl. radii 1e-8..1e-3 too small (refused, or subject to the property).',
-    'C09': ' Also (graph mode): every sequence of up to 2 (quick) / 4 (thorough) reversed / cropped / split operations applied one after the other, against the composed affine parameter map (2.2 M states thorough); T values next to joints (joint +- 3e-9, joint - 1e-6), paths that retrace themselves, a two-subpath path, a path closed through Path.end = Path.start, int control points. Arcs constructed with autoscale_radius=False; the module switch USE_SCIPY_QUAD off.',
-    'C10': ' Depth is now 3 (quick) / 6 (thorough: 103 796 matrices). Also: matrices with |a|=|d|, |b|=|c| that are not similarities, non-dyadic scale factors, rotations by +- an arc\'s own rotation, one-segment closed paths, a path closed by editing its last segment after start/end were read.',
-    'C11': ' Also: lines exactly parallel to every control-polygon leg / chord / axis at exact offsets; lines at 0..1e-4 rad and a line against a piece of (almost) itself; a curve 250 times smaller than the one it crosses; T-coherence on grids of crossings between long paths (segment pairs bracketing 256 and 4096). Options tol / justonemode (keyword and positional); paths with a history; every reported T also against a freshly built equal path.',
-    'C12': ' Also: Line-Line / Line-Bezier pairs at scales 1e-9..1e9; unrotated arcs against lines axis-parallel up to a tilt of 0..1e-3 rad; crossings near either end of an arc; Path.intersect counts against the reduction over all segment pairs on grids whose numbers of pairs bracket 256 and 4096 (incl. one long stroke among short segments, a fine hatch 5e4 from the origin). The crossing asked for with an explicit tol and through the subdivision helper called directly (defaults, tol alone, both).',
-    'C13': ' The reference is now EXACT: the extremes of |B(t)-z|^2 over Q (critical points isolated by Sturm sequences), two-sided. Also: query points on the evolute (k times the radius of curvature from B(t0), t0 incl. both ends), shapes with very uneven legs, zero-length Lines, straight lines stored as float-elevated quadratics / cubics, long paths (sizes bracketing the powers of two) against the reduction over segments. return_all_global_extrema given explicitly (False: the default answer; True: refused or only global extremes); every path history in both tiers.',
-    'C14': ' Also: area of reversed / translated copies made after the path answered other queries; polygons closed by a zero-length Line (what the polygon converter writes for a repeated first point). Area under the optional arguments of scaled / rotated (keywords, origin, sy == sx, sx = 0, sy = 0); ellipses of two strict arcs and their similarity transforms.',
-    'C15': ' Also: covariance of the tangent at a vanishing end derivative under every transform of the library (alone, inside a path, after reversed) for non-dyadic coordinates; shapes 3.6e5 from the origin; copies made after the source answered other queries; thorough: every assignment of 2..4 control points over a 7-value lattice on a 37-point t grid. Arcs constructed with autoscale_radius=False, plain and under every transform.',
-    'C16': ' Further explorations, each to a fixpoint: close (path closed / opened through its setters), samehash (values -1 / -2), alias (one segment object at two positions; aliasing is part of the state key), depth (point-symmetric cubic, length(error, min_depth=0)); scripted histories on 31..129-segment paths; every exploration has a horizon (60 000 / 3 000 000 states) that is reported when hit.',
-    'C17': ' Also: a fifth reader (SaxDocument.save then SaxDocument), near-identity transforms with vertices of straight shapes compared to 1e-9*size, non-shape siblings carrying transforms, every legal spelling of a points list. Reader options: group_filter / path_filter / path_conversions (keyword, positional), paths_from_group by element / names, recursive or not, all 64 combinations of the convert_* flags of svg2paths (+ svg2paths2, svgstr2paths, return_svg_attributes) on a document with every element kind several times as siblings; sides of straight shapes compared at their midpoints too.',
-    'C18': ' Also: a path obtained from the document, edited in place and added again; attribute values that need escaping; line breaks / tabs in values (wsvg loses them: known finding). wsvg\'s svg-level options (viewbox, dimensions, margin_size, mindim, baseunit ...), alone and with svg_attributes; the Document\'s group queries (root and every chain, recursive or not, by element / names) in every state.',
-    'C19': ' Also: the same control points as int / bool / float / complex / Fraction / integer, float, complex ndarrays; an ndarray parameter; one root 9..15 orders of magnitude away; the polynomial handed over as real or complex-dtype ndarray, list, tuple, poly1d. All combinations of realroots / condition (keyword, positional); polynomials with the exact simple root 0; optional arguments of bezier2polynomial by position.',
-    'C20': ' Also: collinear cubics (straight, overshooting, backing up), ease-in / ease-out cubics, single segments of every kind incl. loops, turtle walks that return exactly to their start.',
+    'C02': ' Also: one command letter repeated N times (N bracketing every power of two up to 256/1000) in the letter-dropping spellings, and relative moves whose float sum returns to the subpath start only up to rounding. The parser\'s other entry points and optional arguments (current_pos by keyword / position, tree_element, Path(d, z)) for every program of <= 4 commands. Every program of <= 3 commands also as a tiny, a far-away and a hairline drawing (exact power-of-two maps).',
+    'C03': ' Also: the same ndarray refilled in place between two points() calls; polynomial-to-Bezier conversion for int / int-ndarray / poly1d / float / complex coefficients; thorough: every assignment of control points over a 9-value lattice. Optional arguments of the conversion helpers also by position. Scales 1e-9 .. 1e9 (thorough 1e-12 .. 1e12), shapes at 1e6+1e6j, parameters close to the ends.',
+    'C04': ' Also: pairs of arcs differing by -1 / -2 in one number (equal hashes), radii too small by 1e-8..1e-4, a rotation of 3.6e12+25 degrees; thorough: 245 000 arcs incl. far-away start points. Every arc also through the strict constructor (autoscale_radius=False / True, keyword / positional, rx or ry negated); dyadic exact-fit half ellipses. Chords 2e-9 and 3e9; the parameter as an ndarray.',
+    'C05': ' Also: every ordered pair (previous T, T) on one Path object (paths of <= 3 segments), and coherence after Path.approximate_arcs_with_cubics/quads in place. Paths with a history (measured with default or deliberately loose error / min_depth, reversed twice, parsed, strict arcs, module settings changed and restored ...); a doubling-back cubic in the pool; reference fractions from freshly built segments. Drawing regimes tiny / tinier / huge / far for words of <= 3 segments; paths with repeated segments.',
+    'C06': ' Also: an arc whose radii differ by 3e-6 relative, shapes with very uneven control-polygon legs, a self-closing cubic. Non-default error / min_depth (relative and absolute, keyword and positional); the module switch USE_SCIPY_QUAD off; segment and path histories as in C05. Scales 1e-9 and 1e9 (thorough 1e-12 .. 1e9), shapes at 1e6+1e6j, sub-intervals next to the ends (without scipy tiny drawings are a known finding).',
+    'C07': ' Also: all ordered pairs of calls (s, s_tol) on one object, ilength - edit through the Path interface (incl. -1 -> -2) - ilength against a fresh Path, and s = +-inf / nan. Non-default s_tol / maxits / error / min_depth (keyword and positional); references from freshly built objects; segment and path histories as in C05. Scales down to 1e-12; arc length up to the returned T from the segments\' own lengths.',
+    'C08': ' Also: Path.bbox against the union of segment boxes for paths of every size bracketing the powers of two up to 256/1000 (gaps, sub-paths, a long stroke), plain-Python-int control points (incl. beyond 64 bits), negative radii. Pieces (cropped / split) of every library segment; arcs constructed with autoscale_radius=False, incl. radii 1e-8..1e-3 too small (refused, or subject to the property). Scales 1e-9 / 1e9; ordinary and 1e-4-size shapes at 1e6+1e6j with tolerances relative to the extent of the curve.',
+    'C09': ' Also (graph mode): every sequence of up to 2 (quick) / 4 (thorough) reversed / cropped / split operations applied one after the other, against the composed affine parameter map (2.2 M states thorough); T values next to joints (joint +- 3e-9, joint - 1e-6), paths that retrace themselves, a two-subpath path, a path closed through Path.end = Path.start, int control points. Arcs constructed with autoscale_radius=False; the module switch USE_SCIPY_QUAD off. The named paths as drawings of scale 1e-12, 1e-9, 1e9; failing derivations are violations.',
+    'C10': ' Depth is now 3 (quick) / 6 (thorough: 103 796 matrices). Also: matrices with |a|=|d|, |b|=|c| that are not similarities, non-dyadic scale factors, rotations by +- an arc\'s own rotation, one-segment closed paths, a path closed by editing its last segment after start/end were read. Invertible maps shrinking / enlarging by 1e-5, 1e-9, 1e6.',
+    'C11': ' Also: lines exactly parallel to every control-polygon leg / chord / axis at exact offsets; lines at 0..1e-4 rad and a line against a piece of (almost) itself; a curve 250 times smaller than the one it crosses; T-coherence on grids of crossings between long paths (segment pairs bracketing 256 and 4096). Options tol / justonemode (keyword and positional); paths with a history; every reported T also against a freshly built equal path. A beyond-the-end family, scales 1e-9 / 1e9 for line pairs, nearly straight arcs.',
+    'C12': ' Also: Line-Line / Line-Bezier pairs at scales 1e-9..1e9; unrotated arcs against lines axis-parallel up to a tilt of 0..1e-3 rad; crossings near either end of an arc; Path.intersect counts against the reduction over all segment pairs on grids whose numbers of pairs bracket 256 and 4096 (incl. one long stroke among short segments, a fine hatch 5e4 from the origin). The crossing asked for with an explicit tol and through the subdivision helper called directly (defaults, tol alone, both). Strokes whose sizes are 1e9 apart; single-segment paths incl. closed loops.',
+    'C13': ' The reference is now EXACT: the extremes of |B(t)-z|^2 over Q (critical points isolated by Sturm sequences), two-sided. Also: query points on the evolute (k times the radius of curvature from B(t0), t0 incl. both ends), shapes with very uneven legs, zero-length Lines, straight lines stored as float-elevated quadratics / cubics, long paths (sizes bracketing the powers of two) against the reduction over segments. return_all_global_extrema given explicitly (False: the default answer; True: refused or only global extremes); every path history in both tiers. Scales 1e-9 / 1e9 and shapes at 1e6+1e6j in both tiers.',
+    'C14': ' Also: area of reversed / translated copies made after the path answered other queries; polygons closed by a zero-length Line (what the polygon converter writes for a repeated first point). Area under the optional arguments of scaled / rotated (keywords, origin, sy == sx, sx = 0, sy = 0); ellipses of two strict arcs and their similarity transforms. A 1e-9 embedding of all lattice polygons (probes 1e9 times longer than the polygon); curved shapes at 1e-9 and 1e6.',
+    'C15': ' Also: covariance of the tangent at a vanishing end derivative under every transform of the library (alone, inside a path, after reversed) for non-dyadic coordinates; shapes 3.6e5 from the origin; copies made after the source answered other queries; thorough: every assignment of 2..4 control points over a 7-value lattice on a 37-point t grid. Arcs constructed with autoscale_radius=False, plain and under every transform. Curvature of elliptical arcs; scales 1e-9 / 1e-12; shapes at 1e6+1e6j.',
+    'C16': ' Further explorations, each to a fixpoint: close (path closed / opened through its setters), samehash (values -1 / -2), alias (one segment object at two positions; aliasing is part of the state key), depth (point-symmetric cubic, length(error, min_depth=0)); scripted histories on 31..129-segment paths; every exploration has a horizon (60 000 / 3 000 000 states) that is reported when hit. Whole-turn arc rotations in the equal-implies-same-hash pairs; shallow copies in the segment histories.',
+    'C17': ' Also: a fifth reader (SaxDocument.save then SaxDocument), near-identity transforms with vertices of straight shapes compared to 1e-9*size, non-shape siblings carrying transforms, every legal spelling of a points list. Reader options: group_filter / path_filter / path_conversions (keyword, positional), paths_from_group by element / names, recursive or not, all 64 combinations of the convert_* flags of svg2paths (+ svg2paths2, svgstr2paths, return_svg_attributes) on a document with every element kind several times as siblings; sides of straight shapes compared at their midpoints too. Tiny and almost closed leaves; number of sides and open / closed compared structurally.',
+    'C18': ' Also: a path obtained from the document, edited in place and added again; attribute values that need escaping; line breaks / tabs in values (wsvg loses them: known finding). wsvg\'s svg-level options (viewbox, dimensions, margin_size, mindim, baseunit ...), alone and with svg_attributes; the Document\'s group queries (root and every chain, recursive or not, by element / names) in every state. A 1e-10-scale drawing and one at 1e6+1e6j with small gaps in the writer pool.',
+    'C19': ' Also: the same control points as int / bool / float / complex / Fraction / integer, float, complex ndarrays; an ndarray parameter; one root 9..15 orders of magnitude away; the polynomial handed over as real or complex-dtype ndarray, list, tuple, poly1d. All combinations of realroots / condition (keyword, positional); polynomials with the exact simple root 0; optional arguments of bezier2polynomial by position. Polynomials multiplied by 1e-14 / 1e14 / 2^-60; splits at parameters close to the ends.',
+    'C20': ' Also: collinear cubics (straight, overshooting, backing up), ease-in / ease-out cubics, single segments of every kind incl. loops, turtle walks that return exactly to their start. Drawings at scales 1e-9, 1e-6, 1e6.',
 }
 
 NOT_YET = {}
